@@ -104,6 +104,7 @@ def run_shape(prog, nr, nt, nsc, dirbc, threads=2, give_flags=((False, False),))
 def run_kernels(prog, n=12, threads=2):
     """vector kernels (templates instantiated for double in the driver units) and the Vector copy"""
     dom = opsdom.OpsDomain(prog, threads=threads)
+    dom.opaque_minmax = True
     it = Interp(prog, dom)
     out = []
     names = ["assign<double>", "add<double>", "subtract<double>", "multiply<double>", "linear_combination<double>", "dot_product<double>",
@@ -141,6 +142,7 @@ def run_driver_loops(prog, threads=2):
     for (nr, nt, nsc, dirbc) in ((7, 8, 3, False), (9, 8, 4, True), (5, 4, 2, False)):
         S = tab_ops.Setting(prog, nr, nt, nsc, dirbc, threads=threads)
         dom = S.dom
+        dom.opaque_minmax = True       # effects only: the norms at the end of computeExactError are not examined here
         gm = Obj("GMGPolar")
         cg_ = symdom.coarse_of(S.grid, min(nsc // 2 + 1, (nr + 1) // 2))
         levels = opsdom.ObjVec("Level", "levels_")
